@@ -646,6 +646,47 @@ def arm64_registers(repo):
     return regs, aliases, saved
 
 
+UNWINDER_FILES = ["minidump-unwind/src/lib.rs", "minidump-unwind/src/amd64.rs", "minidump-unwind/src/arm.rs", "minidump-unwind/src/arm64.rs",
+                  "minidump-unwind/src/arm64_old.rs", "minidump-unwind/src/mips.rs", "minidump-unwind/src/x86.rs",
+                  "minidump-unwind/src/symbols/mod.rs"]
+
+
+def walk_awaits(repo):
+    """every `.await` of the unwinder (non-test code): the function whose future is awaited; and the async fns defined there.
+    A walk can only be suspended inside one of these calls."""
+    callees, async_fns, n = [], [], 0
+    for f in UNWINDER_FILES:
+        sc = Scan(os.path.join(repo, f), label_of(f))
+        s = sc.s
+        for m in re.finditer(r"\basync\s+fn\s+(\w+)", s):
+            if m.group(1) not in async_fns:
+                async_fns.append(m.group(1))
+        for m in re.finditer(r"\.\s*await\b", s):
+            r0 = path_start(s, m.start())
+            expr = s[r0:m.start()].rstrip()
+            if not expr.endswith(")"):
+                die("%s: awaited expression is not a call: %s" % (f, norm(expr)[-80:]))
+            # the call whose result is awaited: identifier in front of the last parenthesis group
+            depth, k = 0, len(expr) - 1
+            while k >= 0:
+                if expr[k] == ")":
+                    depth += 1
+                elif expr[k] == "(":
+                    depth -= 1
+                    if depth == 0:
+                        break
+                k -= 1
+            cm = re.search(r"(\w+)\s*(?:::<[^>]*>\s*)?$", expr[:k])
+            if not cm:
+                die("%s: cannot name the awaited call: %s" % (f, norm(expr)[-80:]))
+            n += 1
+            if cm.group(1) not in callees:
+                callees.append(cm.group(1))
+    if n == 0:
+        die("no .await found in the unwinder (the extraction is broken)")
+    return sorted(callees), sorted(async_fns)
+
+
 def lsb_aliases(repo):
     path = os.path.join(repo, "minidump-processor/src/process_state.rs")
     src = strip_comments(open(path).read())
@@ -717,6 +758,7 @@ def main():
         die("no future combinator found (the extraction is broken: into_process_state joins the per-thread walks)")
     arms = lsb_aliases(repo)
     a64_regs, a64_aliases, a64_saved = arm64_registers(repo)
+    await_callees, unwinder_async_fns = walk_awaits(repo)
     o = ["(* GENERATED by translate/c13_sites.py from minidump-processor, minidump-unwind and breakpad-symbols sources — do not edit. *)",
          "From Coq Require Import List String ZArith.", "Import ListNotations.", "Open Scope string_scope.", "",
          "(* every iteration over a HashMap / HashSet in the non-test code: (file, enclosing fn, text without whitespace) *)",
@@ -748,6 +790,10 @@ def main():
     o.append("Definition lsb_aliases : list (list string * string) := [")
     o.append(";\n".join("  ([%s], %s)" % ("; ".join(coq_str(k) for k in ks), coq_str(fld)) for ks, fld in arms))
     o.append("].")
+    o.append("")
+    o.append("(* minidump-unwind/src/{lib,amd64,arm,arm64,arm64_old,mips,x86}.rs, symbols/mod.rs: the functions whose futures the unwinder awaits (every .await of the non-test code), and the async fns defined in those files *)")
+    o.append("Definition walk_await_callees : list string := [%s]." % "; ".join(coq_str(c) for c in await_callees))
+    o.append("Definition unwinder_async_fns : list string := [%s]." % "; ".join(coq_str(c) for c in unwinder_async_fns))
     o.append("")
     o.append("(* minidump/src/context.rs, impl CpuContext for md::CONTEXT_ARM64: REGISTERS and the alias arms of memoize_register *)")
     o.append("Definition arm64_registers : list string := [%s]." % "; ".join(coq_str(r) for r in a64_regs))
